@@ -142,9 +142,9 @@ def main():
     chk = H.Check('C18', 'Base64 conforms to RFC 4648 and round-trips')
     prog = chk.load(deps=())
     quick = chk.tier == 'quick'
-    nmax = 4 if quick else 7
+    nmax = 4 if quick else 18
     cases = [dict(kind='rt', n=n) for n in range(0, nmax + 1)]
-    for nb in ((4,) if quick else (4, 8)):
+    for nb in ((4,) if quick else (4, 8, 12, 16)):
         cases.append(dict(kind='rej', nbytes=nb))
     for nb, at in (((5, 3), (5, 0)) if quick else ((5, 0), (5, 1), (5, 2), (5, 3), (9, 7), (9, 4))):
         cases.append(dict(kind='rej', nbytes=nb, at=at))
